@@ -46,7 +46,7 @@ Iterate(p, n)      == Pg("iterate", n, <<p>>, <<>>, NoE, <<>>)
 IterateFinal(p, n) == Pg("iteratefinal", n, <<p>>, <<>>, NoE, <<>>)
 MaskedIterate(p, n)      == Pg("maskediterate", n, <<p>>, <<>>, NoE, <<>>)
 MaskedIterateFinal(p, n) == Pg("maskediteratefinal", n, <<p>>, <<>>, NoE, <<>>)
-Closure(p, stored) == Pg("closure", 0, <<p>>, <<>>, NoE, stored)  \* gen_fn partially applied to stored argument values
+Closure(p, stored) == Pg("closure", 0, <<p>>, <<>>, NoE, stored)  \* gen_fn(*stored): closure; n = 1: partial_apply(*stored); n = 2: gen_fn(**stored as trailing keywords)
 
 ---------------------------------------------------------------------------
 Pow32(d) == CASE d = 0 -> 1 [] d = 1 -> 32 [] d = 2 -> 1024 [] d = 3 -> 32768
@@ -71,7 +71,7 @@ Exec(p, args, chm, dflt) ==
          THEN R3(<<>> :> LPcat(args[1].k[chm[<<>>] + 1].i), I(chm[<<>>]), "none")
          ELSE R3(EmptyF, I(0), IF dflt THEN "none" ELSE "missing")
     [] p.k = "static" -> ExecSites(p, args, chm, dflt, 1, <<>>, R3(EmptyF, Nn, "none"))
-    [] p.k = "closure" -> Exec(p.subs[1], p.x \o args, chm, dflt)
+    [] p.k = "closure" -> Exec(p.subs[1], IF p.n = 2 THEN args \o p.x ELSE p.x \o args, chm, dflt)   \* n = 2: stored as trailing keyword arguments
     [] p.k \in {"vmap", "repeat"} ->
          LET n  == p.n
              el(i) == IF p.k = "repeat" THEN args
